@@ -232,7 +232,7 @@ func constTripCount(c *Ctx, fn *ssa.Function, li *loopInfo) (int64, bool) {
 
 func r15_3(c *Ctx, r *Report) {
 	const rule = "R15.3"
-	r.rule(rule, "Unit steps. (What the units list is decided element by element by R15.9.) Moving n whole weeks is NextDay(7*n); moving by seasons/half-years multiplies by the same 3/6 used for listing; (the month step and the weekday-offset wrap are decided by R15.7 and R15.6).")
+	r.rule(rule, "Unit steps. (What the units list is decided element by element by R15.9.) Moving n whole weeks is NextDay(7*n); moving by n seasons/half-years lands on the unit of the month 3n/6n months on (followed by the evaluator, month step and helpers inline); (the month step and the weekday-offset wrap are decided by R15.7 and R15.6).")
 	// multiplier agreement between listing and stepping
 	mulArg := func(fnName, calleeName string, argIdx int) (int64, bool, *ssa.Function) {
 		fn := c.Fn(r, rule, fnName)
@@ -269,8 +269,6 @@ func r15_3(c *Ctx, r *Report) {
 		what       string
 	}{
 		{"calendar.(*SolarWeek).Next", "calendar.(*Solar).NextDay", 7, "whole-week step is NextDay(7*n)"},
-		{"calendar.(*SolarSeason).Next", "calendar.(*SolarMonth).Next", 3, "season step is 3*n months"},
-		{"calendar.(*SolarHalfYear).Next", "calendar.(*SolarMonth).Next", 6, "half-year step is 6*n months"},
 	} {
 		k, ok, fn := mulArg(t.fn, t.callee, 1)
 		if fn == nil {
@@ -281,6 +279,79 @@ func r15_3(c *Ctx, r *Report) {
 			continue
 		}
 		r.check(k == t.want, rule, t.fn+": "+t.what, c.fnPos(fn), fmt.Sprintf("multiplier %d, expected %d", k, t.want))
+	}
+	// seasons and half-years: followed by the evaluator (helpers and the month step inline) for every
+	// month the unit can be built from and every n in -9..9
+	for _, t := range []struct {
+		fn, typ, ctor string
+		mult          int64
+		what          string
+	}{
+		{"calendar.(*SolarSeason).Next", "SolarSeason", "calendar.NewSolarSeasonFromYm", 3, "season step is 3*n months"},
+		{"calendar.(*SolarHalfYear).Next", "SolarHalfYear", "calendar.NewSolarHalfYearFromYm", 6, "half-year step is 6*n months"},
+	} {
+		fn := c.Fn(r, rule, t.fn)
+		if fn == nil || len(fn.Params) != 2 {
+			continue
+		}
+		problems := map[string]bool{}
+		n := 0
+		for m := int64(1); m <= 12; m++ {
+			for k := int64(-9); k <= 9 && len(problems) < 6; k++ {
+				var leaf leafX
+				leaf = func(fr *evalFrame, v ssa.Value) (interface{}, bool) {
+					if fr.parent == nil && v == ssa.Value(fn.Params[1]) {
+						return k, true
+					}
+					if rc, f, ok := getterField(c, v); ok && (strings.HasSuffix(f, ".year") || strings.HasSuffix(f, ".month")) {
+						if ofr, o := fr.origin(rc); ofr.parent == nil && o == ssa.Value(fn.Params[0]) {
+							if strings.HasSuffix(f, ".year") {
+								return int64(2022), true
+							}
+							return m, true
+						}
+						if x, ok := evalWith(fr, rc, leaf); ok {
+							if d, isD := x.(absDate); isD {
+								if strings.HasSuffix(f, ".year") {
+									return d.y, true
+								}
+								return d.m, true
+							}
+						}
+					}
+					if call, ok := v.(*ssa.Call); ok && call.Common().StaticCallee() != nil && len(call.Common().Args) == 2 {
+						tag := int64(-1)
+						switch fname(call.Common().StaticCallee()) {
+						case "calendar.NewSolarMonthFromYm":
+							tag = 0
+						case t.ctor:
+							tag = t.mult
+						}
+						if tag >= 0 {
+							y, ok1 := evalWith(fr, call.Common().Args[0], leaf)
+							mm, ok2 := evalWith(fr, call.Common().Args[1], leaf)
+							yi, isY := y.(int64)
+							mi, isM := mm.(int64)
+							if ok1 && ok2 && isY && isM {
+								return absDate{yi, mi, tag}, true
+							}
+						}
+					}
+					return nil, false
+				}
+				ev := &evaluator{inline: inlineLibrary, leaf: leaf}
+				res, outcome := ev.run(fn, nil, nil, nil, nil)
+				n++
+				total := 2022*12 + (m - 1) + t.mult*k
+				want := absDate{total / 12, total%12 + 1, t.mult}
+				if outcome != "return" || len(res) != 1 {
+					problems["the function could not be followed: "+outcome+" "+ev.fail] = true
+				} else if res[0] != interface{}(want) {
+					problems[fmt.Sprintf("the unit of 2022-%d stepped by %d is built from %v, expected the %s of %d-%d", m, k, res[0], t.typ, want.y, want.m)] = true
+				}
+			}
+		}
+		r.check(len(problems) == 0 && n == 12*19, rule, t.fn+": "+t.what, c.fnPos(fn), fmt.Sprintf("%d cases (month the unit was built from x n); deviations: %v", n, headList(sortedKeys(problems), 3)))
 	}
 	// year step is additive
 	if fn := c.Fn(r, rule, "calendar.(*SolarYear).Next"); fn != nil {
